@@ -720,6 +720,42 @@ func cmdCheckOracle(args []string) {
 			}
 		}
 	}
+	// minimization never moves from a failure to a test case that merely skipped: here the failure is a non-fatal one
+	// signalled by a cleanup function, and smaller inputs make a cleanup function skip
+	if *only < 0 || *only == 900006 {
+		gx := rapid.IntRange(0, 1000)
+		lastFailed := false
+		prop := func(t *rapid.T) {
+			x := gx.Draw(t, "x")
+			lastFailed = false
+			t.Cleanup(func() {
+				switch {
+				case x > 500:
+					lastFailed = true
+					t.Errorf("x is too big: %d", x)
+				case x > 100:
+					t.Skip("x is too small to be interesting")
+				}
+			})
+		}
+		for k := uint64(0); k < 3; k++ {
+			old := setFlags(100, (*seed+k)|1, 200*time.Millisecond, true)
+			tb := &recTB{name: "T"}
+			esc := runTB(func() { rapid.Check(tb, prop) })
+			rapid.VerifSetFlags(old)
+			verdict, _, _, msg, _ := classifyTB(tb)
+			stats["failure_vs_skip_runs"]++
+			if verdict == "ok" || verdict == "onlygen" || verdict == "none" {
+				continue
+			}
+			if esc != nil || !lastFailed || strings.Contains(msg, "invalid data") {
+				d := fmt.Sprintf("verdict=%s msg=%q final replay failed=%v escaped=%v", verdict, msg, lastFailed, esc)
+				fails = append(fails, oracleFailure{"C05", "minimization moved from a failure to a test case that merely skipped", "IntRange(0,1000): cleanup Errorf when x > 500, cleanup Skip when 100 < x <= 500", 100, (*seed + k) | 1, "200ms", d, *seed, 900006, *prof})
+				fails = append(fails, oracleFailure{"C11", "the test case presented as falsifying is one in which nothing failed", "IntRange(0,1000): cleanup Errorf when x > 500, cleanup Skip when 100 < x <= 500", 100, (*seed + k) | 1, "200ms", d, *seed, 900006, *prof})
+				break
+			}
+		}
+	}
 	// many large passing test cases in one run: every one of them is valid on its own, whatever ran before it
 	if *only < 0 || *only == 900003 {
 		gbig := rapid.SliceOfN(rapid.Uint16(), 50000, 60000)
